@@ -11,7 +11,7 @@ import vlib
 
 class Lab:
     def __init__(self, scratch, yardl_bin, idx, gen, pkg=None, ndjson=False, sanitize=False,
-                 want_cpp=True, want_py=True, n_imports=None, want_matlab=False):
+                 want_cpp=True, want_py=True, n_imports=None, want_matlab=False, compile_cpp=True):
         self.sc, self.yardl, self.idx, self.gen = scratch, yardl_bin, idx, gen
         self.root = scratch.path(f"lab{idx}")
         self.pkg = pkg if pkg is not None else gen.gen_package(n_imports=n_imports)
@@ -19,6 +19,7 @@ class Lab:
         self.sanitize = sanitize
         self.want_cpp, self.want_py = want_cpp, want_py
         self.want_matlab = want_matlab
+        self.compile_cpp = compile_cpp    # False: the C++ is generated (to be read) but not built
         self.spell_rng, self.expanded_p, self.text_filter = None, 0.25, None
         self.old_pkgs = []      # [(label, Package)]: previous versions declared by the package (written under <root>/old_<label>)
         self.ok = False
@@ -52,7 +53,7 @@ class Lab:
         self.pymod = vlib.to_snake(self.pkg.namespace)
         self.schemas = vlib.py_schemas(self.out_py, self.pkg.namespace)
         self.protos = {p["name"]: modelgen.proto_json(self.pkg, p) for p in self.pkg.protocols()}
-        if self.want_cpp:
+        if self.want_cpp and self.compile_cpp:
             plist = [(n, sum(1 for s in pj if s["stream"])) for n, pj in self.protos.items()]
             main = vlib.cpp_main(self.pymod, plist, ndjson=self.ndjson, out_cpp=self.out_cpp)
             self.exe = os.path.join(self.root, "xlate")
